@@ -96,8 +96,17 @@ fn deserialize_flag(s: &str) -> Result<bool, String> {
     }
 }
 
+// The Binary field of a Sources stanza is a comma-separated list of package names
 fn deserialize_binaries(value: &str) -> Result<Vec<String>, String> {
-    Ok(value.split_whitespace().map(|s| s.to_string()).collect())
+    Ok(value
+        .split(',')
+        .map(|s| s.trim().to_string())
+        .filter(|s| !s.is_empty())
+        .collect())
+}
+
+fn serialize_binaries(binaries: &[String]) -> String {
+    binaries.join(", ")
 }
 
 fn join_lines(components: &[String]) -> String {
@@ -133,7 +142,7 @@ pub struct Source {
     /// Package of the source
     pub package: String,
 
-    #[deb822(field = "Binary", deserialize_with = deserialize_binaries, serialize_with = join_whitespace)]
+    #[deb822(field = "Binary", deserialize_with = deserialize_binaries, serialize_with = serialize_binaries)]
     /// Binaries of the source
     pub binaries: Option<Vec<String>>,
 
